@@ -184,6 +184,16 @@ def _fit(case):
             if sub.shape != (len(L), nc) or np.abs(sub - tr[L]).max() > tol:
                 viol.append((sig("get_transform(labels)"), f"get_transform(labels={L}) differs from get_transform()[labels] by {np.abs(sub - tr[L]).max() if sub.shape == (len(L), nc) else sub.shape:.3g} (mask {case['mask']}, N={N}, shape {shape})"))
                 break
+        # what a caller does with a returned projection (standardise it for a plot, flip a sign) must not change later read-outs
+        for reader in ("get_transform()", "get_transform(labels)", "transform(images)"):
+            r = clf.get_transform() if reader == "get_transform()" else (clf.get_transform(labels=list(range(N))) if reader == "get_transform(labels)" else clf.transform(dstack))
+            if isinstance(r, np.ndarray) and r.flags.writeable:
+                r -= r.mean(axis=0)
+                r *= -3.0
+            again = np.asarray(clf.get_transform(), dtype=np.float64)
+            if again.shape != tr.shape or np.abs(again - tr).max() > tol:
+                viol.append((sig("readout-aliased"), f"after the array returned by {reader} was modified in place, get_transform() differs from its first value by {np.abs(again - tr).max():.3g}"))
+                break
         t2 = np.asarray(clf.transform(dstack), dtype=np.float64)
         if t2.shape != tr.shape or np.abs(t2 - tr).max() > tol:
             viol.append((sig("transform(input)"), f"transform(images) differs from get_transform() by {np.abs(t2 - tr).max():.3g} (mask {case['mask']})"))
